@@ -118,7 +118,7 @@ def auth_values(key):
     if key == 'id':
         return VALID['id'] + ['@', '1.2.3', '10.1.2.3@x', 'ü.example', 'ü@example']
     if key == 'psk':
-        return ['other', 'päss']
+        return ['other', 'päss', '0x1234abcd', '0xCafe-not-hex', '007', ' padded ']
     if key == 'privkey':
         return [PRIVKEY, PUBKEY, PRIVKEY[:300], EMPTY_PEM, EC_PRIV, ED_PRIV]
     return [PUBKEY, PRIVKEY, PUBKEY[:100], EMPTY_PEM, EC_PUB, ED_PUB]
